@@ -3,6 +3,7 @@ package c17
 
 import (
 	"fmt"
+	"sort"
 	"strings"
 
 	"github.com/lightningnetwork/lnd/lnwallet"
@@ -183,6 +184,53 @@ func apiDustJobs(thorough bool) []job {
 	return jobs
 }
 
+// apiOpRetJobs: simple close with an OP_RETURN delivery script (the owner burns its
+// balance: output of value zero, present iff the balance reaches the owner's dust
+// limit). lnd's shutdown validation refuses such scripts, so the state machines
+// never see them; the channel API and the tx builder implement the rule. RBF
+// options only (custom payer + custom sequence), each party's settled balance on
+// {0, each channel dust limit -1/0/+1, 5000} x both payers x fees {0, 253, payer's
+// remainder at its dust limit -1/0} x OP_RETURN on A's side, B's side, both.
+func apiOpRetJobs(thorough bool) []job {
+	var jobs []job
+	types := quickDustTypes
+	pairs := [][2]string{{"opret", "p2wkh"}, {"p2tr", "opret"}, {"opret", "opret1"}, {"opret1", "p2wsh"}}
+	if thorough {
+		types = chanmc.AllTypes
+		pairs = append(pairs, [2]string{"opret", "opret"}, [2]string{"p2wkh", "opret1"})
+	}
+	targets := []int64{0, 199, 200, 201, 1299, 1300, 1301, 5000}
+	for _, typ := range types {
+		for _, ob := range []bool{false, true} {
+			for _, src := range scriptDustSources(typ, ob, targets, [2]int64{200, 1300}) {
+				src := src
+				jobs = append(jobs, job{name: "apiopret " + src.Name(), part: "api", f: func(h *harness) {
+					h.withPair(src, func(p *pair) {
+						for payer := 0; payer < 2; payer++ {
+							g, d := p.gross[payer], p.dust[payer]
+							fs := map[int64]bool{0: true, 253: true, g - d - 1: true, g - d: true}
+							for _, fee := range sortedKeys(fs) {
+								if fee < 0 {
+									continue
+								}
+								for _, sc := range pairs {
+									if h.expired() {
+										return
+									}
+									c := ApiCase{Fee: fee, Payer: payer, SA: sc[0], SB: sc[1]}
+									v := safely("api", func() verdict { return runApi(p, c, nil) })
+									h.record(Replay{Part: "api", Src: &src, Api: &c}, v)
+								}
+							}
+						}
+					})
+				}})
+			}
+		}
+	}
+	return jobs
+}
+
 // apiFees: the fee lattice for one pair and payer.
 func apiFees(p *pair, payer int) []int64 {
 	g := p.gross[payer]
@@ -194,6 +242,8 @@ func apiFees(p *pair, payer int) []int64 {
 		s[g-p.dust[payer]+k] = true // payer's remainder at its dust limit -1 / 0 / +1
 	}
 	s[g+100_000] = true // far above
+	// both parties are left with the same amount (BIP69 tie, order by script bytes)
+	s[g-p.gross[1-payer]] = true
 	var out []int64
 	for _, f := range sortedKeys(s) {
 		if f >= 0 {
@@ -267,7 +317,15 @@ func pureJobs(thorough bool) []job {
 
 func plan(thorough bool, parts string) []job {
 	want := func(p string) bool { return parts == "" || strings.Contains(parts, p) }
-	var jobs []job
+	// One list per family; the lists are merged round-robin so that a deadline on a
+	// loaded machine cuts the tail of every family instead of whole families (the
+	// legacy part used to come last and did not run at all in a capped run).
+	var fams [][]job
+	fam := func(j []job) {
+		if len(j) > 0 {
+			fams = append(fams, j)
+		}
+	}
 	allScripts := [][2]string{}
 	for _, a := range scriptKinds {
 		for _, b := range scriptKinds {
@@ -276,13 +334,14 @@ func plan(thorough bool, parts string) []job {
 	}
 	lowScripts := [][2]string{{"p2wkh", "p2wsh"}, {"p2tr", "p2wkh"}, {"p2wsh", "p2tr"}}
 	if want("pure") {
-		jobs = append(jobs, pureJobs(thorough)...)
+		fam(pureJobs(thorough))
 	}
 	if want("rbf") {
-		jobs = append(jobs, rbfDustJobs(thorough)...)
-		jobs = append(jobs, rbfJobs(thorough)...)
+		fam(rbfDustJobs(thorough))
+		fam(rbfJobs(thorough))
 	}
 	if want("api") {
+		var big, low []job
 		for _, typ := range chanmc.AllTypes {
 			for _, ob := range []bool{false, true} {
 				for _, src := range bigSources(typ, ob, thorough) {
@@ -290,23 +349,50 @@ func plan(thorough bool, parts string) []job {
 					if !thorough {
 						sc = [][2]string{{"p2wkh", "p2wsh"}, {"p2tr", "p2wkh"}, {"p2wsh", "p2tr"}, {"p2tr", "p2tr"}}
 					}
-					jobs = append(jobs, apiJob(src, sc, []uint32{0, 650_000}))
+					big = append(big, apiJob(src, sc, []uint32{0, 650_000}))
 				}
 				for k, src := range lowSources(typ, ob, thorough) {
 					sc := [][2]string{lowScripts[k%3]}
 					if thorough {
 						sc = append(sc, lowScripts[(k+1)%3])
 					}
-					jobs = append(jobs, apiJob(src, sc, []uint32{0}))
+					low = append(low, apiJob(src, sc, []uint32{0}))
 				}
 			}
 		}
-	}
-	if want("api") {
-		jobs = append(jobs, apiDustJobs(thorough)...)
+		fam(big)
+		fam(low)
+		fam(apiDustJobs(thorough))
+		fam(apiOpRetJobs(thorough))
 	}
 	if want("legacy") {
-		jobs = append(jobs, negJobs(thorough)...)
+		fam(negJobs(thorough))
+	}
+	// proportional merge: family f contributes its k-th job at position k/len(f)
+	type slot struct {
+		pos float64
+		f   int
+		j   job
+	}
+	var slots []slot
+	for fi, f := range fams {
+		for k, j := range f {
+			pos := float64(k) / float64(len(f))
+			if j.part == "pure" {
+				pos /= 2 // few long jobs: all started within the first half of the list
+			}
+			slots = append(slots, slot{pos: pos, f: fi, j: j})
+		}
+	}
+	sort.SliceStable(slots, func(a, b int) bool {
+		if slots[a].pos != slots[b].pos {
+			return slots[a].pos < slots[b].pos
+		}
+		return slots[a].f < slots[b].f
+	})
+	var jobs []job
+	for _, s := range slots {
+		jobs = append(jobs, s.j)
 	}
 	return jobs
 }
